@@ -12,6 +12,8 @@ DBG_WR = ['rm /big', 'mkdir /newdir', 'write /etc/hostname /nf', 'unlink /mid', 
 TOOLS = ['e2fsck -n', 'e2fsck -fn', 'e2fsck -fn -b', 'e2fsck -n -E journal_only', 'debugfs-ro', 'debugfs-refuse', 'debugfs -c', 'dumpe2fs', 'dumpe2fs -h', 'dumpe2fs -x', 'dumpe2fs -b', 'dumpe2fs -g', 'tune2fs -l', 'resize2fs -P', 'e2image -r', 'e2image -Q', 'e2image -ra',
          'e2freefrag', 'e2undo -n', 'mke2fs -n', 'e2label', 'e2fsck -n -D', 'e2fsck -fn -z', 'e2image meta', 'filefrag-less e2fsck -nv', 'e2fsck -nf -E bmap2extent', 'e2fsck -fn -c?']
 TOOLS = TOOLS[:-1]
+# filesystems with an EXTERNAL journal device (second file): clean, with an error recorded in the journal superblock, or with committed transactions waiting
+TOOLS += ['e2fsck -n ext-journal', 'e2fsck -fn ext-journal']
 RULE = ('Hypothesis draws (configuration, recipe, image state out of %s, 0-3 structure-aware corruptions for the corrupted states, read-only invocation out of %d tool forms incl. %d debugfs read commands and %d modifying debugfs commands issued WITHOUT -w); '
         'oracle: sha256 of the target before == after, and the LD_PRELOAD syscall trace of the run shows no successful write/pwrite/ftruncate/fallocate on the target (fsync is not a modification; an attempt the kernel refuses on a read-only descriptor is counted, not judged); '
         'non-trivial = image state is not "clean"; distinct by (state, invocation, configuration)') % (STATES, len(TOOLS), len(DBG_RO), len(DBG_WR))
@@ -116,9 +118,45 @@ def invocation(env, case, img, cfg):
         return [t.e2undo, '-n'] + (['-v'] if sub % 2 else []) + (['-f'] if sub % 5 == 0 else []) + [u, img], None
     raise KeyError(name)
 
+def body_extjournal(case, env, name, classes, fp):
+    from checks import c03
+    from vlib import jbd2
+    import shutil, struct
+    idx = [i for i, c in enumerate(c03.FSCFG) if c.get('extjournal')][case['sub'] % 3]
+    env.setdefault('base', {})
+    b = c03.base_image(env, idx)
+    jbase = env.get('base_j', {}).get(idx)
+    if b is None or not jbase: return (None, fp, False, None, classes + ['skip:no-external-journal-base'])
+    base, pool = b; bs = c03.FSCFG[idx]['bs']; d = env['dir']
+    img = os.path.join(d, 'target.img'); jnl = os.path.join(d, 'target.jnl'); shutil.copyfile(base, img); shutil.copyfile(jbase, jnl)
+    variant = (case['sub'] // 3) % 4; classes.append('extjournal:' + ['clean', 's_errno-set', 'transactions-waiting', 's_errno-set+has-errors-state'][variant])
+    if variant in (1, 3):
+        with open(jnl, 'r+b') as f:
+            o = jbd2.ext_journal_sb_block(bs) * bs; f.seek(o); jsb = bytearray(f.read(1024)); struct.pack_into('>i', jsb, 0x20, -5 - case['sub'] % 7)
+            if struct.unpack_from('>I', jsb, 0x28)[0] & 0x18: struct.pack_into('>I', jsb, 0xfc, 0); struct.pack_into('>I', jsb, 0xfc, e4ref.crc32c(0xffffffff, bytes(jsb[:1024])))
+            f.seek(o); f.write(jsb)
+    if variant == 2:
+        spec = dict(fmt64=bool(case['sub'] & 1), csum=[0, 1, 2, 3][case['sub'] % 4], seq0=5, start_mode=0, start=case['sub'], seed=case['sub'], damage=0, damage_at=0,
+                    trans=[dict(blocks=[(k, False) for k in range(1 + case['sub'] % 9)], rev_before=[], rev_after=[3], split=0, same_uuid=True)])
+        spec['async'] = False
+        try: jbd2.write_journal(img, spec, pool, ext=jnl)
+        except Exception: return (None, fp, False, None, classes + ['skip:writer'])
+    argv = [env['plain'].e2fsck] + name.split()[1:2] + ['-j', jnl, img]
+    h0 = (vrun.sha256_file(img), vrun.sha256_file(jnl)); log = os.path.join(d, 'iot.log')
+    if os.path.exists(log): os.unlink(log)
+    p = vrun.run(argv, env=vrun.traced_env(log, 'target.img', match2='target.jnl'), merge=True, cpu=60)
+    h1 = (vrun.sha256_file(img), vrun.sha256_file(jnl)); tr = vrun.parse_trace(log)
+    wr = [(op, off, len(dd) if isinstance(dd, (bytes, bytearray)) else dd) for op, off, dd in tr if op in 'WTFEX']
+    classes.append('rc:%s' % (p.rc if p.rc is not None else 'sig%s' % p.sig))
+    if h0 != h1 or wr:
+        return (dict(kind='modified' if h0 != h1 else 'write-syscall-without-change', state='external-journal', tool=name, sub=classes[-2], cfg=c03.FSCFG[idx]['name'], which=('journal device' if h0[1] != h1[1] else 'filesystem' if h0[0] != h1[0] else 'none'),
+                     writes=wr[:6], rc=p.rc, out=p.out[-400:]), fp, True, None, classes)
+    return (None, fp, variant != 0, dict(state='external-journal', invocation=' '.join(os.path.basename(a) for a in argv[:-1])[:120], variant=classes[-2], rc=p.rc, trace_ops=len(tr)), classes)
+
 def body(case, env):
     state = STATES[case['state']]; name = TOOLS[case['tool']]
     classes = ['state:' + state, 'tool:' + name]; fp = core.stable_hash(case)
+    if name.endswith('ext-journal'): return body_extjournal(case, env, name, ['tool:' + name], fp)
     cfg = fsgen.config_by_name(case['cfg'])
     img, desc = make_state(env, case, cfg)
     if img is None: return (None, fp, False, None, classes + ['skip:state-not-constructible'])
